@@ -327,6 +327,15 @@ def spd_lattice(n, tier):
         for i in range(n):
             P[i][i] += 1
         out.append(P)
+    # symmetric positive definite but nearly singular: built from a unit triangular factor and a diagonal with one pivot many orders of
+    # magnitude below the others (two almost perfectly correlated states), at every position
+    if n >= 2:
+        for tiny in (Fraction(1, 2 ** 35), Fraction(1, 2 ** 60)):
+            for pos in range(n):
+                for lower in (True, False):
+                    T = [[Fraction(1) if i == j else (Fraction(((i * 3 + j * 5 + pos) % 5) - 2, 2) if ((i > j) if lower else (i < j)) else Fraction(0)) for j in range(n)] for i in range(n)]
+                    Dg = [[(tiny if i == pos else Fraction(3 + i, 4)) if i == j else Fraction(0) for j in range(n)] for i in range(n)]
+                    out.append(mm(mm(T, Dg), tr(T)))
     return out
 
 
@@ -441,6 +450,30 @@ def explore_rk4(case):
             if not (4.5 <= order <= 5.5):
                 res.fail(site="util.rk4", clause="local_error_order_5", cls="rotation", detail=dict(w=wv, h=h0, observed_order=order,
                          errs=[float(e) for e in errs]), sub="rk4", case=case)
+    # (4) the state given in another storage form: structurally sparse entries where the state happens to be zero (released from rest,
+    # diagonal initial covariance).  Direct numeric calls of util.rk4 on SX data; the dense call is the one judged exactly above.
+    u_ = _util()
+
+    def sparse_of(vals, shape):
+        M_ = ca.SX(*shape)
+        for k_, v_ in enumerate(vals):
+            if v_ != 0:
+                M_[k_ % shape[0], k_ // shape[0]] = float(v_)
+        return M_
+    fields = [("oscillator", lambda t_, y_: ca.vertcat(y_[1], -4.0 * y_[0]), [1.0, 0.0], (2, 1)),
+              ("cubic_in_t", lambda t_, y_: ca.vertcat(1 + t_ ** 2, 2 * t_ - t_ ** 3), [0.0, 0.0], (2, 1)),
+              ("lyapunov", lambda t_, P_: ca.mtimes(ca.DM([[0, 1.0], [-2.0, -0.3]]), P_) + ca.mtimes(P_, ca.DM([[0, 1.0], [-2.0, -0.3]]).T) + ca.DM([[0.1, 0], [0, 0.2]]),
+               [2.0, 0.0, 0.0, 3.0], (2, 2)),
+              ("coupled3", lambda t_, y_: ca.vertcat(y_[1] + y_[2], y_[0] - y_[2], 1 + y_[0]), [0.0, 0.5, 0.0], (3, 1))]
+    for nm, fld, y0v, shp in fields:
+        for hh in (0.1, -0.5):
+            res.count("evaluations")
+            res.nontrivial.add(hash(("form", nm, hh)))
+            dense = ca.SX(ca.DM(np.array(y0v, dtype=float).reshape(shp, order="F")))
+            want_ = np.array(ca.evalf(ca.densify(u_.rk4(fld, 0.3, dense, ca.SX(hh)))), dtype=float)
+            got_ = np.array(ca.evalf(ca.densify(u_.rk4(fld, 0.3, sparse_of(y0v, shp), ca.SX(hh)))), dtype=float)
+            if got_.shape != want_.shape or not np.all(np.isfinite(got_)) or np.max(np.abs(got_ - want_)) > 1e-13 * (1 + np.max(np.abs(want_))):
+                res.fail(site="util.rk4", clause="result_independent_of_storage_form_of_state", cls=nm, detail=dict(field=nm, h=hh, y0=y0v, sparse=got_, dense=want_), sub="rk4", case=case)
     # conformance in double on one representative of each program
     for f, prog, flat in ((f_cubic, pc, [[0.4], [2.0], [0.1], [1.0, -2.0, 0.0, 1.0]]), (f_lin, pl, [[0.0], [2.0], [0.1], [-3.0]])):
         conform_or_die(f, prog, flat, f.name())
@@ -566,7 +599,79 @@ def explore_predict_variants(case):
                     if any(v is sxvm.POISON for r in A for v in r) or mm(mm(A, D), tr(A)) != dense:
                         res.fail(site="util.%s_symmetric_decomposition" % kind, clause="reconstructs_input_with_unit_triangular_factor", cls="n=%d;sparse_pattern" % n,
                                  detail=dict(P=[[str(x) for x in r] for r in dense], arrow_first=first), sub="variants", case=case)
-    res.samples.append(dict(variants="scale, history, sparse patterns"))
+    # (4) sqrt_correct with a factor W that is structurally sparser than a full lower triangle: diagonal (the usual W0 = diag(sigma)) and
+    # block diagonal, declared as a symbol with that pattern and given as numbers with stored zeros dropped
+    mp = mpmath.mp
+
+    def Mx(rows):
+        return mp.matrix([[mp.mpf(float(x)) for x in r] for r in rows])
+    for n, m_ in ((2, 1), (3, 1), (3, 2), (4, 2), (6, 1), (6, 2)):
+        pats = {"diag": [(i, i) for i in range(n)],
+                "block": sorted(set([(i, i) for i in range(n)] + [(i, i - 1) for i in range(1, n, 2)]), key=lambda rc: (rc[1], rc[0])),
+                "first_col": sorted(set([(i, i) for i in range(n)] + [(i, 0) for i in range(n)]), key=lambda rc: (rc[1], rc[0]))}
+        for pname, nzs in pats.items():
+            sp = ca.Sparsity.triplet(n, n, [r for r, c in nzs], [c for r, c in nzs])
+            try:
+                Rs = ca.SX.sym("Rs", ca.Sparsity.lower(m_))
+                H = ca.SX.sym("H", m_, n)
+                Wsym = ca.SX.sym("W", sp)
+                Wp, K, Ss = u.sqrt_correct(Rs, H, Wsym)
+                fpat = ca.Function("sqrt_correct_" + pname, [Rs, H, Wsym], [ca.densify(Wp), ca.densify(K), ca.densify(Ss)])
+            except Exception as ex:
+                res.count("evaluations")
+                res.fail(site="util.sqrt_correct", clause="operation_raises", cls="W_pattern=" + pname, detail=dict(n=n, m=m_, msg=str(ex)[:200]), sub="variants", case=case)
+                continue
+            rows_, cols_ = sp.get_triplet()
+            order_ = list(zip(rows_, cols_))
+            for k in range(3):
+                res.count("evaluations")
+                res.nontrivial.add(hash(("wpat", n, m_, pname, k)))
+                Wd = [[0.0] * n for _ in range(n)]
+                for (r, c) in order_:
+                    Wd[r][c] = float(1 + ((r + k) % 3)) if r == c else float(((r * 2 + c + k) % 3) - 1) or 0.5
+                Hv = [[float(((i * 3 + j * 2 + k) % 3) - 1) for j in range(n)] for i in range(m_)]
+                if not any(any(r) for r in Hv):
+                    Hv[0][0] = 1.0
+                Rv = [[(1.0 + i) if i == j else (0.5 if j < i else 0.0) for j in range(m_)] for i in range(m_)]
+                Wm, Hm, Rm = Mx(Wd), Mx(Hv), Mx(Rv)
+                P = Wm * Wm.T
+                S = Hm * P * Hm.T + Rm * Rm.T
+                Kref = P * Hm.T * (S ** -1)
+                Pp = (mp.eye(n) - Kref * Hm) * P
+                for form in ("symbolic_pattern", "numeric_sparse"):
+                    try:
+                        if form == "symbolic_pattern":
+                            o = fpat.call([ca.DM(ca.Sparsity.lower(m_), [Rv[r][c] for c in range(m_) for r in range(c, m_)]), ca.DM(np.array(Hv)), ca.DM(sp, [Wd[r][c] for r, c in order_])])
+                        else:
+                            Wn = ca.SX(n, n)
+                            for (r, c) in order_:
+                                Wn[r, c] = Wd[r][c]
+                            Rn = ca.SX(ca.Sparsity.lower(m_))
+                            for c in range(m_):
+                                for r in range(c, m_):
+                                    Rn[r, c] = Rv[r][c]
+                            o3 = u.sqrt_correct(Rn, ca.SX(ca.DM(np.array(Hv))), Wn)
+                            o = [ca.evalf(ca.densify(x)) for x in o3]
+                        Wpn, Kn, Ssn = [np.array(x, dtype=float) for x in o]
+                    except Exception as ex:
+                        res.fail(site="util.sqrt_correct", clause="operation_raises", cls="W_pattern=%s;%s" % (pname, form), detail=dict(n=n, m=m_, msg="%s: %s" % (type(ex).__name__, str(ex)[:200])), sub="variants", case=case)
+                        continue
+                    bad = []
+                    if not (np.all(np.isfinite(Wpn)) and np.all(np.isfinite(Kn))):
+                        bad.append("finite")
+                    else:
+                        sc = 1 + float(max(abs(x) for x in P))
+                        if max(abs(mp.mpf(float(Kn[i, j])) - Kref[i, j]) for i in range(n) for j in range(m_)) > 1e-9 * sc:
+                            bad.append("gain_is_P_Ht_Sinv")
+                        if max(abs(x) for x in (Mx(Wpn.tolist()) * Mx(Wpn.tolist()).T - Pp)) > 1e-9 * sc:
+                            bad.append("posterior_factor")
+                        if max(abs(x) for x in (Mx(Ssn.tolist()) * Mx(Ssn.tolist()).T - S)) > 1e-9 * sc:
+                            bad.append("innovation_factor")
+                        if np.max(np.abs(np.triu(Wpn, 1))) > 0:
+                            bad.append("Wplus_lower_triangular")
+                    for b in bad:
+                        res.fail(site="util.sqrt_correct", clause=b, cls="W_pattern=%s;%s" % (pname, form), detail=dict(n=n, m=m_, W=Wd, H=Hv, Rs=Rv), sub="variants", case=case)
+    res.samples.append(dict(variants="scale, history, sparse patterns, sparse W in sqrt_correct"))
     return res
 
 
